@@ -1196,11 +1196,19 @@ def run(ctx, prop='C01'):
                                               or detail.startswith('cut')) else None
             ctx.disagree('C01 ' + stream, {'case': case, 'detail': detail}, key=None if key is None else None)
     ctx.extra['max_relative_error_vs_defining_sum'] = worst
+    if prop == 'C01':
+        from harness.props import c01_ties
+        k = ctx.scale(1, 6)
+        c01_ties.run_ties(ctx, {'tie-mft': 25 * k, 'tie-czt': 25 * k, 'tie-zoom': 20 * k, 'tie-zoomaxes': 12 * k, 'tie-state': 25 * k,
+                                'tie-lit': 16 * k, 'tie-select': 40 * k})
     if ctx.boundary_skipped > 0.05 * max(1, ctx.traces_validated):
         raise MachineryError('more than 5 % of the correspondence cases were skipped at a float decision boundary')
 
 
 def replay(ctx, case):
+    if str(case.get('family', '')).startswith('tie-'):
+        from harness.props import c01_ties
+        return c01_ties.replay_case(ctx, case)
     if case.get('family') == 'select-edge':
         bad = edge_case_oracle(case)
     else:
